@@ -1,6 +1,7 @@
 package vh
 
 import (
+	"time"
 	"bufio"
 	"bytes"
 	"errors"
@@ -79,6 +80,7 @@ type EngineRunner struct {
 	opStart        int
 	curWrites      []histWrite
 	skipRanges     [][2]int // event ranges (of Close / Backup) whose interior is not a crash point
+	lastBatch      time.Time // when the scenario created its latest batch (see continueImage)
 }
 
 // checkFileLimit (C17): a data file exceeds DataFileSize only when it holds a single record
@@ -453,6 +455,7 @@ func (r *EngineRunner) Exec(f []string) (res string) {
 		r.batchSync = f[2] == "1"
 		r.so.opKind = "batch"
 		r.batch = r.db.NewBatch(kv.BatchOptions{Sync: f[2] == "1"})
+		r.lastBatch = time.Now()
 		r.ref.batchBegin(f[2] == "1")
 		return fmt.Sprintf("%d", r.batch.VerifBatchID())
 	case "bput":
